@@ -62,6 +62,7 @@ type Step struct {
 
 	// W-sys
 	Req     *ReqSpec `json:"req,omitempty"`
+	Reqs    []ReqSpec `json:"reqs,omitempty"` // race: requests served concurrently
 	NewSpec *SysSpec `json:"new_spec,omitempty"`
 
 	// crash / fault / concurrency fields are added by the worlds that use them
